@@ -15,6 +15,7 @@ import operator
 from copy import copy
 from collections.abc import Iterator
 from decimal import Decimal, DivisionByZero, InvalidOperation
+from fractions import Fraction
 from typing import cast, NoReturn
 
 import elementpath.aliases as ta
@@ -694,6 +695,9 @@ def evaluate__idiv_operator(self: XPathToken, context: ta.ContextType = None) ->
     try:
         if op2 == 0:
             raise ZeroDivisionError()
+        elif isinstance(op1, float) or isinstance(op2, float):
+            # exact truncated quotient of the xs:double values (float // loses precision beyond 2**51)
+            return 0 if math.isinf(op2) else math.trunc(Fraction(float(op1)) / Fraction(float(op2)))
         result = op1 // op2
         if result >= 0 or isinstance(op1, Decimal) or \
                 isinstance(op2, Decimal) or not op1 % op2:
